@@ -37,23 +37,33 @@ def creation_rules(ctx, rule='C02.create'):
     return res
 
 
+def alloc_bodies(ctx, txalloc):
+    """the allocation wrapper with its module-private helpers folded in, plus the closures it creates (`.unwrap_or_else(|| self.extend(n))`), folded likewise"""
+    F = ctx.facts
+    out = [ctx.A.xf(txalloc)]
+    for g in F.fns:
+        if g.kind == 'Closure' and g.owner is txalloc:
+            out.append(ctx.A.xf(g))
+    return out
+
+
 def advance_sites(ctx, txalloc):
     """where the allocation wrapper advances the high-water mark: [(bb, stmt index or None, description, is_addition)] — a direct store of
     Meta.num_pages, or a call of a local helper (same type) that stores it"""
     F = ctx.facts
     out = []
-    txalloc = ctx.A.xf(txalloc)        # module-private helpers (reserve_page_ids ...) folded in
-    du = ctx.du(txalloc)
-    for bb, si, s in stores_to_field(txalloc, 'Meta', 'num_pages'):
-        _, atoms = du.slice_operand(s['rv']['op']) if s['rv']['k'] == 'use' else (None, set())
-        out.append((bb, si, txalloc.loc(bb, si), any(a[0] == 'bin' and a[1].startswith('Add') for a in atoms), None))
-    for bb, t, target, c in F.call_sites(txalloc):
-        if target is None or target.self_adt != txalloc.self_adt:
-            continue
-        dg = ctx.du(target)
-        for b2, s2, st in stores_to_field(target, 'Meta', 'num_pages'):
-            _, atoms = dg.slice_operand(st['rv']['op']) if st['rv']['k'] == 'use' else (None, set())
-            out.append((bb, None, '%s (via %s)' % (txalloc.loc(bb), target.qual), any(a[0] == 'bin' and a[1].startswith('Add') for a in atoms), target))
+    for body in alloc_bodies(ctx, txalloc):
+        du = ctx.du(body)
+        for bb, si, s in stores_to_field(body, 'Meta', 'num_pages'):
+            _, atoms = du.slice_operand(s['rv']['op']) if s['rv']['k'] == 'use' else (None, set())
+            out.append((bb, si, body.loc(bb, si), any(a[0] == 'bin' and a[1].startswith('Add') for a in atoms), None))
+        for bb, t, target, c in F.call_sites(body):
+            if target is None or target.self_adt != txalloc.self_adt:
+                continue
+            dg = ctx.du(target)
+            for b2, s2, st in stores_to_field(target, 'Meta', 'num_pages'):
+                _, atoms = dg.slice_operand(st['rv']['op']) if st['rv']['k'] == 'use' else (None, set())
+                out.append((bb, None, '%s (via %s)' % (body.loc(bb), target.qual), any(a[0] == 'bin' and a[1].startswith('Add') for a in atoms), target))
     return out
 
 
@@ -122,6 +132,12 @@ def cow_write_set(ctx):
         from_alloc = has_call(atoms, alloc.path)
         helpers = {x[4].path for x in advance_sites(ctx, txalloc_raw) if x[4] is not None}
         from_hw = has_field(atoms, 'Meta', 'num_pages') or any(a[0] == 'call' and a[2] in helpers for a in atoms)
+        if not from_hw:
+            # the fallback to the high-water mark may be a closure handed to a combinator: `alloc(n).unwrap_or_else(|| self.extend(n))`
+            clos = [b for b in alloc_bodies(ctx, txalloc_raw)[1:] if stores_to_field(b, 'Meta', 'num_pages') or
+                    any(tg is not None and tg.path in helpers for _, _, tg, _ in ctx.facts.call_sites(b))]
+            if clos and any(a[0] == 'call' and last_seg(strip_generics(a[2])) in ('unwrap_or_else', 'or_else', 'map_or_else', 'ok_or_else', 'get_or_insert_with', 'or_insert_with') for a in atoms):
+                from_hw = True
         consts = [a for a in atoms if a[0] == 'const']
         if from_alloc and from_hw:
             res.append(ok(rule, 'page id recorded at %s comes from %s or the high-water mark' % (txalloc.loc(bb), alloc.qual), sites=1))
@@ -143,7 +159,9 @@ def cow_write_set(ctx):
                 res.append(ok(rule, 'high-water mark advanced by addition at %s' % where, sites=1))
     # (e) the mark a transaction allocates from moves only there (and only upwards, see above): lowering it anywhere else hands out, as fresh, pages that the
     # committed tree or an open reader still uses
-    allowed = {txalloc_raw.qual} | set(getattr(txalloc, 'inlined', []) or [])
+    allowed = {txalloc_raw.qual}
+    for body in alloc_bodies(ctx, txalloc_raw):
+        allowed |= set(getattr(body, 'inlined', []) or []) | {body.qual}
     nst = 0
     for f in sorted(ctx.facts.fns, key=lambda g: g.path):
         for bb, si, st in stores_to_field(f, 'Meta', 'num_pages'):
